@@ -30,12 +30,14 @@ import (
 // An update is delivered twice over an unbuffered channel: the second send returns only when the loop is back in
 // its select, i.e. has finished with the first. Every reply carries the canonical dump of route.GetTable() and
 // the arguments of registry.Default.Register made by the loop of this session (consecutive equal calls
-// collapsed: a rejected text is processed again by the second delivery). Nothing here changes the behaviour of
+// collapsed: a rejected text is processed again by the second delivery) and "started": whether the loop has closed
+// the channel main() waits for before it starts the listeners. Nothing here changes the behaviour of
 // a normal fabio process.
 
 type verifC14Backend struct {
 	svc, man chan string
 	bound    chan struct{}
+	first    chan bool // closed by the loop after its first route.SetTable: main() then starts the listeners
 	once     sync.Once
 	gid      string // goroutine of the loop bound to this backend
 	mu       sync.Mutex
@@ -102,9 +104,9 @@ func verifC14Start() *verifC14Backend {
 	cfg := &config.Config{}
 	cfg.Registry.Backend = "verif"
 	cfg.Log.RoutesFormat = "delta"
-	be := &verifC14Backend{svc: make(chan string), man: make(chan string), bound: make(chan struct{})}
+	be := &verifC14Backend{svc: make(chan string), man: make(chan string), bound: make(chan struct{}), first: make(chan bool)}
 	registry.Default = be
-	go watchBackend(cfg, metrics.DiscardProvider{}, make(chan bool))
+	go watchBackend(cfg, metrics.DiscardProvider{}, be.first)
 	// the loop reads the GLOBAL registry.Default when its goroutine first runs: hand the session out only when
 	// the loop holds this backend's channels
 	<-be.bound
@@ -124,6 +126,12 @@ func init() {
 		m := map[string]interface{}{"table": route.VerifDump(route.GetTable(), false)}
 		if be != nil {
 			m["registered"] = be.registered()
+			select {
+			case <-be.first:
+				m["started"] = true
+			default:
+				m["started"] = false
+			}
 		}
 		if errText != "" {
 			m = map[string]interface{}{"error": errText}
